@@ -190,7 +190,7 @@ def _freq_filter(ts, si, b, axis=None, typ="lp"):
     else:
         filc = _freq_vector(f, b, typ=typ)
     if axis < (ts.ndim - 1):
-        filc = filc[:, np.newaxis]
+        filc = filc.reshape([-1] + [1] * (ts.ndim - 1 - axis))
     return np.real(
         np.fft.ifft(np.fft.fft(ts, axis=axis) * fexpand(filc, ns, axis=0), axis=axis)
     )
